@@ -74,6 +74,7 @@ func round6(w *World, r *Report) {
 		r.withRule("R04.16", func() { ruleC07EverySessionsEntry(w, r) })
 		r.withRule("R04.17", func() { ruleC09MeterArray(w, r) })
 		r.withRule("R04.18", func() { ruleC06SeidEntropy(w, r) })
+		ruleOwnReferenceDroppedFirst(w, r, "C04", "R04.19")
 		r.Explanation += " R04.16 the sessions entry of every PDR is part of its batch (C07 R07.11); R04.17 meters are programmed and reset in the array of their kind (C09 R09.9); R04.18 UP4 state is keyed by F-SEID: two associations never draw the same SEID sequence (C06 R06.7);"
 	case "C06":
 		r.withOnly("R06.9", onlyRule("R01.J5"), func() { ruleC01Secondary(w, r) })
@@ -120,6 +121,7 @@ func round6(w *World, r *Report) {
 			r.floor("R11.15 methods of shared objects on the receive path", len(sub), 60)
 		}
 		r.withOnly("R11.16", onlyRule("R05.2"), func() { ruleC05(w, r) })
+		ruleNoCloseOfWorkerChannel(w, r, "R11.17")
 		r.Explanation += " R11.15 crash obligations (index, nil, type assertion, exit, division) of every method of a shared object reachable from the receive path (C01 R01.1 restricted to UP4, bess, IPPool, FTEIDGenerator, P4rtClient, P4rtTranslator, metrics.Service, upf); R11.16 an ending association returns what it holds in the shared pools on every path (C05 R05.2);"
 	case "C13":
 		r.withRule("R13.12", func() { ruleC07SEID(w, r) })
@@ -133,6 +135,7 @@ func round6(w *World, r *Report) {
 	case "C15":
 		r.withOnly("R15.8", onlyRule("R03.6"), func() { ruleC03Handlers(w, r) })
 		r.withRule("R15.9", func() { ruleC05Complete(w, r) })
+		ruleOwnReferenceDroppedFirst(w, r, "C15", "R15.10")
 		r.Explanation += " R15.8 a request one of whose datapath writes was rejected is never accepted, the store is written after both writes (C03 R03.6); R15.9 a removed rule is handed to the datapath as a copy of itself (C05 R05.6);"
 	case "C16":
 		r.withOnly("R16.12", func(o Obligation) bool {
@@ -140,6 +143,25 @@ func round6(w *World, r *Report) {
 		}, func() { ruleC15(w, r) })
 		r.withRule("R16.13", func() { ruleC09MeterArray(w, r) })
 		r.Explanation += " R16.12 only values that came out of a pool go back into it (indices stay inside the array the pool was sized for; C15 R15.1); R16.13 a meter entry is written to the array its cell index belongs to (C09 R09.9);"
+	case "C01":
+		funcs := receivePathFuncs(w, "C01")
+		ruleTickerIntervalPositive(w, r, "R01.1.TICK", funcs)
+		ruleNoCloseOfWorkerChannel(w, r, "R01.1.CLOSE")
+		r.Explanation += " R01.1.TICK no ticker interval is computed as a difference with elapsed time (NewTicker/Reset panic on ≤ 0); R01.1.CLOSE a completion channel that started workers send on is never closed by the function that waits for them;"
+	case "C09":
+		ruleStoredPdrSharesQerList(w, r, "C09", "R09.13")
+		ruleOneSessionQerLabel(w, r, "C09", "R09.14")
+		r.Explanation += " R09.13 the stored PDR shares its QER ID list with the PDR that is programmed (MarkSessionQer re-orders in place); R09.14 the session label is written once, outside the search loop;"
+	case "C17":
+		ruleOwnReferenceDroppedFirst(w, r, "C17", "R17.14")
+		ruleWidthLimitIsExclusiveOf100(w, r, "C17", "R17.15")
+		r.Explanation += " R17.14 the users of a shared application entry are counted after the caller's own reference was dropped (a repeated delete cannot take another PDR's port-range entry away); R17.15 a range of exactly 100 ports is still expanded;"
+	case "C18":
+		ruleCommentsAlwaysStripped(w, r, "C18", "R18.9")
+		r.Explanation += " R18.9 every path of removeComments returns the pattern's ReplaceAll of the input;"
+	case "C19":
+		ruleSliceMeterJoinCount(w, r, "C19", "R19.8")
+		r.Explanation += " R19.8 every caller of addSliceMeter joins as many completions as it starts workers;"
 	case "C05":
 		ruleTeidReleasedUnderItsMark(w, r, "C05", "R05.20")
 		ruleCreateWritesThroughStoredRules(w, r, "C05", "R05.21")
@@ -728,4 +750,385 @@ func ruleSndemIndependentOfOrder(w *World, r *Report, prop, rule string) {
 		pos = w.Pos(posNear(miss))
 	}
 	r.check(miss == nil, rule, w.FuncName(f), "the SNDEM bit alone decides the flag", pos, "bit set ⇒ flag stored", "with the SNDEM bit set parseFAR can still leave the flag unset (a further condition, e.g. on the IEs seen so far): the same request with its IEs in another order, or without a new outer header, is accepted and programmed but emits no End Marker")
+}
+
+// ---------------------------------------------------------------------------------------------
+// C01
+
+// ruleTickerIntervalPositive: time.NewTicker and (*Ticker).Reset panic on a non-positive interval. An interval
+// computed as a difference with elapsed time (period − time.Since(start)) is non-positive as soon as the
+// exchange took longer than the period — which is exactly when a peer answers late.
+func ruleTickerIntervalPositive(w *World, r *Report, rule string, funcs map[*ssa.Function]bool) {
+	n := 0
+	for _, f := range sortedFuncs(w, funcs) {
+		f := f
+		allInstrs(f, func(i ssa.Instruction) {
+			c, ok := i.(ssa.CallInstruction)
+			if !ok {
+				return
+			}
+			g := c.Common().StaticCallee()
+			if g == nil || g.Pkg == nil || g.Pkg.Pkg.Path() != "time" {
+				return
+			}
+			var d ssa.Value
+			switch {
+			case g.Name() == "NewTicker" || g.Name() == "Tick":
+				d = c.Common().Args[0]
+			case g.Name() == "Reset" && g.Signature.Recv() != nil && rootTypeName(g.Signature.Recv().Type()) == "Ticker":
+				d = c.Common().Args[1]
+			default:
+				return
+			}
+			n++
+			s := symOf(d)
+			bad := ""
+			var walk func(x *Sym, depth int)
+			walk = func(x *Sym, depth int) {
+				if x == nil || depth > 8 || bad != "" {
+					return
+				}
+				if x.Op == "bin" && x.Name == "-" {
+					bad = "a difference"
+				}
+				if x.Op == "call" && (strings.HasSuffix(x.Name, "Since") || strings.HasSuffix(x.Name, "Until") || strings.HasSuffix(x.Name, ".Sub")) {
+					bad = "an elapsed time"
+				}
+				for _, a := range x.Args {
+					walk(a, depth+1)
+				}
+			}
+			walk(s, 0)
+			r.check(bad == "", rule, w.FuncName(f), "a ticker interval cannot be zero or negative", w.Pos(c.Pos()), s.String(), "the ticker interval is computed from "+bad+" ("+s.String()+"): it is ≤ 0 whenever the time spent exceeds the period (a response that only a retransmission obtained), and "+g.Name()+" panics on a non-positive interval in a goroutine nothing recovers — the agent exits")
+		})
+	}
+	r.floor(rule+" ticker intervals", n, 1)
+}
+
+// chanIsParamOf: v (a channel operand inside g or one of its closures) is g's idx-th parameter.
+func chanIsParamOf(v ssa.Value, g *ssa.Function, idx int, depth int) bool {
+	if depth > 6 || v == nil {
+		return false
+	}
+	switch x := v.(type) {
+	case *ssa.Parameter:
+		return x.Parent() == g && idx < len(g.Params) && g.Params[idx] == x
+	case *ssa.FreeVar:
+		fn := x.Parent()
+		par := fn.Parent()
+		if par == nil {
+			return false
+		}
+		pos := -1
+		for i, fv := range fn.FreeVars {
+			if fv == x {
+				pos = i
+			}
+		}
+		found := false
+		for _, h := range withClosures(par) {
+			allInstrs(h, func(i ssa.Instruction) {
+				if mc, ok := i.(*ssa.MakeClosure); ok && mc.Fn == ssa.Value(fn) && pos >= 0 && pos < len(mc.Bindings) {
+					if chanIsParamOf(mc.Bindings[pos], g, idx, depth+1) {
+						found = true
+					}
+				}
+			})
+		}
+		return found
+	case *ssa.UnOp:
+		if cell := cellOf(x.X); cell != nil {
+			for _, st := range storesTo(cell) {
+				if chanIsParamOf(st.Val, g, idx, depth+1) {
+					return true
+				}
+			}
+		}
+		return chanIsParamOf(x.X, g, idx, depth+1)
+	case *ssa.Alloc:
+		for _, st := range storesTo(x) {
+			if chanIsParamOf(st.Val, g, idx, depth+1) {
+				return true
+			}
+		}
+	case *ssa.ChangeType:
+		return chanIsParamOf(x.X, g, idx, depth+1)
+	}
+	return false
+}
+
+// ruleNoCloseOfWorkerChannel: the function that waits for its workers on a channel never closes it: a worker
+// that is late (the join gave up after its time-out) then sends on a closed channel and the process panics.
+func ruleNoCloseOfWorkerChannel(w *World, r *Report, rule string) {
+	n := 0
+	for f := range w.allFuncs() {
+		if !w.isRepoFunc(f) || strings.HasPrefix(w.FuncName(f), "test/") || f.Parent() != nil {
+			continue
+		}
+		f := f
+		// channels made here
+		var made []*ssa.MakeChan
+		allInstrs(f, func(i ssa.Instruction) {
+			if mc, ok := i.(*ssa.MakeChan); ok {
+				made = append(made, mc)
+			}
+		})
+		if len(made) == 0 {
+			continue
+		}
+		resolves := func(v ssa.Value, mc *ssa.MakeChan) bool {
+			for d := 0; d < 6 && v != nil; d++ {
+				if v == ssa.Value(mc) {
+					return true
+				}
+				switch x := v.(type) {
+				case *ssa.ChangeType:
+					v = x.X
+				case *ssa.UnOp:
+					if cell := cellOf(x.X); cell != nil {
+						for _, st := range storesTo(cell) {
+							if st.Val == ssa.Value(mc) {
+								return true
+							}
+						}
+					}
+					return false
+				case *ssa.FreeVar:
+					return false
+				default:
+					return false
+				}
+			}
+			return false
+		}
+		for _, mc := range made {
+			// does a worker started (directly or through a callee) from here send on it?
+			sender := ""
+			for _, h := range withClosures(f) {
+				allInstrs(h, func(i ssa.Instruction) {
+					c, ok := i.(ssa.CallInstruction)
+					if !ok || sender != "" {
+						return
+					}
+					g := staticCallee(c)
+					if g == nil || !w.isRepoFunc(g) {
+						return
+					}
+					for ai, a := range c.Common().Args {
+						if !resolves(a, mc) {
+							continue
+						}
+						for _, cl := range withClosures(g) {
+							if cl == g {
+								if _, isGo := i.(*ssa.Go); !isGo {
+									continue
+								}
+							}
+							allInstrs(cl, func(j ssa.Instruction) {
+								if s, ok := j.(*ssa.Send); ok && chanIsParamOf(s.Chan, g, ai, 0) {
+									sender = w.FuncName(cl)
+								}
+							})
+						}
+					}
+				})
+			}
+			if sender == "" {
+				continue
+			}
+			n++
+			var closeAt ssa.Instruction
+			for _, h := range withClosures(f) {
+				allInstrs(h, func(i ssa.Instruction) {
+					c, ok := i.(ssa.CallInstruction)
+					if !ok {
+						return
+					}
+					if b, ok := c.Common().Value.(*ssa.Builtin); ok && b.Name() == "close" && len(c.Common().Args) == 1 {
+						a := c.Common().Args[0]
+						if resolves(a, mc) {
+							closeAt = i
+						} else if fv, ok := a.(*ssa.FreeVar); ok {
+							_ = fv
+							// a deferred literal closing the captured channel
+							if chanBoundTo(h, fv, mc) {
+								closeAt = i
+							}
+						}
+					}
+				})
+			}
+			pos := w.Pos(mc.Pos())
+			if closeAt != nil {
+				pos = w.Pos(closeAt.Pos())
+			}
+			r.check(closeAt == nil, rule, w.FuncName(f), "the completion channel of the workers is never closed by the waiter", pos, "no close; workers in "+sender, "the channel the workers ("+sender+") report on is closed by the function that waits for them: a worker that finishes after the join gave up (a datapath call slower than the time-out) sends on a closed channel — a panic in a goroutine nothing recovers")
+		}
+	}
+	r.floor(rule+" worker completion channels", n, 2)
+}
+
+func chanBoundTo(cl *ssa.Function, fv *ssa.FreeVar, mc *ssa.MakeChan) bool {
+	par := cl.Parent()
+	if par == nil {
+		return false
+	}
+	pos := -1
+	for i, x := range cl.FreeVars {
+		if x == fv {
+			pos = i
+		}
+	}
+	hit := false
+	for _, h := range withClosures(par) {
+		allInstrs(h, func(i ssa.Instruction) {
+			if m, ok := i.(*ssa.MakeClosure); ok && m.Fn == ssa.Value(cl) && pos >= 0 && pos < len(m.Bindings) {
+				b := m.Bindings[pos]
+				if b == ssa.Value(mc) {
+					hit = true
+				}
+				if a, ok := b.(*ssa.Alloc); ok {
+					for _, st := range storesTo(a) {
+						if st.Val == ssa.Value(mc) {
+							hit = true
+						}
+					}
+				}
+			}
+		})
+	}
+	return hit
+}
+
+// ---------------------------------------------------------------------------------------------
+// C09
+
+// ruleStoredPdrSharesQerList: MarkSessionQer re-orders the QER ID lists of the session's PDRs in place, and the
+// handler programs the PDRs of its own list (addPDRs), which see the re-ordering because both share the
+// list's array. A private copy taken when the PDR is stored cuts that link.
+func ruleStoredPdrSharesQerList(w *World, r *Report, prop, rule string) {
+	n := 0
+	for _, name := range []string{"pfcpiface.(*PFCPSession).CreatePDR", "pfcpiface.(*PFCPSession).UpdatePDR"} {
+		f := w.Fn(prop, name)
+		var st0 *ssa.Store
+		allInstrs(f, func(i ssa.Instruction) {
+			if st, ok := i.(*ssa.Store); ok && loadsFieldAddr(st.Addr, "qerIDList") {
+				st0 = st
+			}
+		})
+		n++
+		pos := w.Pos(f.Pos())
+		if st0 != nil {
+			pos = w.Pos(st0.Pos())
+		}
+		r.check(st0 == nil, rule, w.FuncName(f), "the stored PDR keeps the QER ID list of the PDR that is programmed", pos, "no store to qerIDList", "the PDR is stored with a list of its own: MarkSessionQer moves the session QER to the end of the STORED list only, the PDR the handler hands to the datapath keeps the order of the message — with the session QER listed first, BESS binds the PDR to the session QER as its application QER")
+	}
+	r.floor(rule+" store sites of PDRs", n, 2)
+}
+
+// ruleOneSessionQerLabel: MarkSessionQer labels one QER: the label is written once, after the search.
+func ruleOneSessionQerLabel(w *World, r *Report, prop, rule string) {
+	f := w.Fn(prop, "pfcpiface.(*PFCPSession).MarkSessionQer")
+	sq := w.ConstInt(prop, pfcpPkg, "SessionQos")
+	n := 0
+	allInstrs(f, func(i ssa.Instruction) {
+		st, ok := i.(*ssa.Store)
+		if !ok || !loadsFieldAddr(st.Addr, "qosLevel") {
+			return
+		}
+		if k, ok := constInt(st.Val); !ok || k != sq {
+			return
+		}
+		n++
+		r.check(!inCycle(st.Block(), st.Block()), rule, w.FuncName(f), "the session label is written once, after the candidate search", w.Pos(st.Pos()), "outside every loop", "the label is written inside the search loop: every running maximum met on the way is labelled, a session with two QERs common to all PDRs (session AMBR and UE AMBR) ends with two session QERs")
+	})
+	r.check(n == 1, rule, w.FuncName(f), "one statement labels the session QER", w.Pos(f.Pos()), "1 store", fmt.Sprintf("%d stores of SessionQos in MarkSessionQer", n))
+}
+
+// ---------------------------------------------------------------------------------------------
+// C17 / C04 / C15
+
+// ruleOwnReferenceDroppedFirst: "is anybody else using it" is asked after the caller's own reference is gone;
+// asked before, a second removal by the same user (a repeated deletion) finds one reference — somebody
+// else's — takes it for its own and deletes the shared entry.
+func ruleOwnReferenceDroppedFirst(w *World, r *Report, prop, rule string) {
+	n := 0
+	for _, name := range []string{"pfcpiface.(*UP4).removeInternalApplicationIDAndGetP4rtEntry", "pfcpiface.(*UP4).removeGTPTunnelPeer"} {
+		f := w.Fn(prop, name)
+		var removes, cards []ssa.Instruction
+		allInstrs(f, func(i ssa.Instruction) {
+			c, ok := i.(ssa.CallInstruction)
+			if !ok || !c.Common().IsInvoke() {
+				return
+			}
+			switch c.Common().Method.Name() {
+			case "Remove":
+				removes = append(removes, i)
+			case "Cardinality":
+				cards = append(cards, i)
+			}
+		})
+		for _, c := range cards {
+			n++
+			dom := false
+			for _, rm := range removes {
+				if instrDominates(rm, c) {
+					dom = true
+				}
+			}
+			r.check(dom, rule, w.FuncName(f), "the users are counted after the caller's own reference was dropped", w.Pos(c.Pos()), "Remove dominates Cardinality", "the remaining users of the shared object are counted before (or without) removing the caller's reference: a removal repeated for the same rule — the agent supports repeating a deletion that failed half way — finds the other user's reference, and deletes the entry and releases the ID that a live session still uses")
+		}
+	}
+	r.floor(rule+" user counts in the remove functions", n, 2)
+}
+
+// ---------------------------------------------------------------------------------------------
+// C18
+
+// ruleCommentsAlwaysStripped: what removeComments returns is the pattern's ReplaceAll of its input, on every
+// path (no shortcut that returns the text as it is after looking for one of the two comment markers).
+func ruleCommentsAlwaysStripped(w *World, r *Report, prop, rule string) {
+	f := w.Fn(prop, "pfcpiface.removeComments")
+	n := 0
+	for _, ret := range returnsOf(f) {
+		n++
+		v := res(ret, 0)
+		c, ok := v.(*ssa.Call)
+		good := ok && staticCallee(c) != nil && strings.HasPrefix(staticCallee(c).Name(), "ReplaceAll")
+		r.check(good, rule, w.FuncName(f), "every path strips the comments with the pattern", w.Pos(ret.Pos()), "ReplaceAll…(input)", "removeComments returns "+symOf(v).String()+" on this path: a text it did not run the pattern over (a shortcut that looks for `//` only leaves /* … */ comments in place, and the decoder fails on them)")
+	}
+	r.floor(rule+" returns of removeComments", n, 1)
+}
+
+// ---------------------------------------------------------------------------------------------
+// C19
+
+// ruleSliceMeterJoinCount: every caller of addSliceMeter waits for as many completions as addSliceMeter starts
+// workers.
+func ruleSliceMeterJoinCount(w *World, r *Report, prop, rule string) {
+	add := w.Fn(prop, "pfcpiface.(*bess).addSliceMeter")
+	join := w.Fn(prop, "pfcpiface.(*bess).GRPCJoin")
+	workers := 0
+	for _, h := range withClosures(add) {
+		allInstrs(h, func(i ssa.Instruction) {
+			if _, ok := i.(*ssa.Go); ok {
+				workers++
+			}
+		})
+	}
+	n := 0
+	for f := range w.allFuncs() {
+		if !w.isRepoFunc(f) || strings.HasPrefix(w.FuncName(f), "test/") {
+			continue
+		}
+		if len(callsTo(f, add)) == 0 {
+			continue
+		}
+		for _, jc := range callsTo(f, join) {
+			n++
+			k, ok := constInt(jc.Common().Args[1])
+			r.check(ok && int(k) == workers, rule, w.FuncName(f), "the slice meter join waits for every worker addSliceMeter starts", w.Pos(jc.Pos()), fmt.Sprintf("%d", k), fmt.Sprintf("addSliceMeter starts %d worker(s), %s waits for %d completion(s): the REST request is answered (and its context cancelled) while a direction is still being programmed", workers, w.FuncName(f), k))
+		}
+	}
+	r.floor(rule+" joins after addSliceMeter", n, 2)
 }
